@@ -1387,8 +1387,12 @@ func TestVerifC20(t *testing.T) {
 	var judgeMemo sync.Map
 	var judged, judgeHits atomic.Int64
 	memo := &c20Memo{}
+	allowed := ^uint64(0) // operations of the family being explored
 	run := func(hist []int) mc.StepResult {
 		if n := len(hist); n > 0 {
+			if allowed&(1<<uint(hist[n-1])) == 0 {
+				return mc.StepResult{Applicable: false}
+			}
 			pk := c20HistString(hist[:n-1])
 			mv, ok := enabledMemo.Load(pk)
 			if !ok {
@@ -1434,6 +1438,29 @@ func TestVerifC20(t *testing.T) {
 	if len(c20Ops) > 64 {
 		t.Fatal("harness: enabledness mask is 64 bits")
 	}
+	// Rename family: name hand-overs between two metrics need longer histories than the full
+	// alphabet reaches (a name is given up, taken by the other metric, given up again and taken
+	// back, with partial deliveries to the compact replica in between: the shortest such history
+	// has 8 operations). The same BFS and the same oracle over the sub-alphabet {create-metric,
+	// rename-metric, deliver} (20 operations), deeper. It runs first: the deepest level of the
+	// full alphabet may use up the wall budget of the thorough tier.
+	allowed = 0
+	for i, op := range c20Ops {
+		switch {
+		case op.kind == c20OpCreateMetric, op.kind == c20OpRenameMetric, op.kind == c20OpDeliver:
+			allowed |= 1 << uint(i)
+		}
+	}
+	renameDepth := mc.Pick(10, 11)
+	if s := os.Getenv("VERIF_C20_RENAME_DEPTH"); s != "" {
+		fmt.Sscan(s, &renameDepth)
+	}
+	rep.Bounds["rename_family_max_history_length"] = renameDepth
+	rstats := mc.BFS(run, mc.BFSOptions{NumOps: len(c20Ops), MaxDepth: renameDepth})
+	rstats.Samples = nil
+	rep.MergeBFS("rename_family_histories", rstats)
+	allowed = ^uint64(0)
+
 	stats := mc.BFS(run, mc.BFSOptions{NumOps: len(c20Ops), MaxDepth: depth})
 	stats.Samples = nil // the engine's samples are the first arrivals (order of goroutines); fixed ones are added below
 	rep.MergeBFS("histories", stats)
